@@ -120,6 +120,63 @@ def run_session(binpath, args, wdir, race):
     return p.stderr
 
 
+def lru_seeded(seed, n):
+    """Long histories over more keys than fit, sizes 1..5: eviction, re-insertion and update of every position."""
+    rng = random.Random(seed * 6151 + 17)
+    out = []
+    for _ in range(n):
+        m = rng.randint(1, 5)
+        nk = rng.randint(m, m + 4)
+        ops = []
+        for _ in range(rng.randint(10, 120)):
+            if rng.random() < 0.55:
+                ops.append({"op": "add", "k": rng.randint(1, nk), "v": rng.randint(1, 9)})
+            else:
+                ops.append({"op": "get", "k": rng.randint(1, nk), "v": 0})
+        out.append({"max": m, "ops": ops})
+    return out
+
+
+def lru_phase(ctx, wdir, verdict, only=None):
+    """The resolver's shared LRU caches (production size 10,000, so resolver-level runs never evict): TLC LruMC checks the design
+    properties of Lru.tla and enumerates every Add/Get history up to the bound; the real cache executes each (driver overlaid into
+    the module, /repo untouched); TLC LruTrace consumes each history as Lru actions and compares reply and state at every step."""
+    drv = vlib.build_lru_driver()
+    states = gen = 0
+    if only is not None:
+        hists = [only]
+    else:
+        outf = os.path.join(wdir, "lru_hists.raw")
+        r = vlib.tlc("LruMC", os.path.join(vlib.SPEC, "LruMC_%s.cfg" % ctx.tier), wdir, env={"VERIF_OUT": outf}, workers=12, timeout=1500, heap="6g")
+        vlib.tlc_must_pass(r, "LruMC")
+        states, gen = r.distinct, r.generated
+        if ctx.tier != "quick":
+            r = vlib.tlc("LruMC", os.path.join(vlib.SPEC, "LruMC_deep.cfg"), wdir, env={"VERIF_OUT": os.devnull}, workers=12, timeout=1500, heap="6g")
+            vlib.tlc_must_pass(r, "LruMC deep")
+            states, gen = states + r.distinct, gen + r.generated
+        hists = vlib.read_ndjson(outf) + lru_seeded(ctx.seed, 300 if ctx.tier == "quick" else 5000)
+    hf = os.path.join(wdir, "lru_hists.ndjson")
+    obsf = os.path.join(wdir, "lru_obs.ndjson")
+    vlib.write_ndjson(hf, hists)
+    vlib.run_harness(drv, [hf, obsf], timeout=1500)
+    s2, g2, rej, lines = vlib.tlc_chunks("LruTrace", os.path.join(vlib.SPEC, "LruTrace.cfg"), wdir, obsf, 6000, "LruTrace")
+    if len(lines) != len(hists):
+        raise vlib.Trouble("LRU driver recorded %d of %d histories" % (len(lines), len(hists)))
+    evicting = 0
+    for h in hists:
+        if len({o["k"] for o in h["ops"] if o["op"] == "add"}) > h["max"]:
+            evicting += 1
+    for idx, x in rej:
+        h = hists[idx - 1]
+        o = json.loads(lines[idx - 1])
+        k = x["k"]
+        sig = "lru-%s|max=%d|%s" % (x["law"], h["max"], json.dumps(h["ops"][:k], sort_keys=True, separators=(",", ":"))[-160:])
+        verdict.fail(sig, {"law": "lru-" + x["law"], "step": k, "lru_history": h, "observed": o["steps"][k - 1] if k <= len(o["steps"]) else {"panic": o["panic"]},
+                           "session": {}})
+    return {"lru_model_states": states + s2, "lru_histories_replayed": len(hists), "lru_steps_validated": sum(len(h["ops"]) for h in hists),
+            "lru_histories_with_eviction": evicting}, states + s2, gen + g2
+
+
 def run(ctx):
     try:
         return run_checked(ctx)
@@ -138,6 +195,14 @@ def run_checked(ctx):
     pid = "C05"
     t0 = time.time()
     wdir = vlib.workdir(pid, "replay" if ctx.replay else None)
+    if ctx.replay and "lru_history" in json.load(open(ctx.replay)).get("case", {}):
+        verdict = vlib.Verdict(pid)
+        lru_phase(ctx, wdir, verdict, only=json.load(open(ctx.replay))["case"]["lru_history"])
+        if verdict.violations:
+            print("VIOLATION property=%s replay=%s" % (pid, ctx.replay))
+            return 1
+        print("replay: case no longer fails on the current tree")
+        return 0
     vh = vlib.build_harness("vh")
     tb = tables(wdir)
     tablesf = os.path.join(wdir, "tables.json")
@@ -216,15 +281,18 @@ def run_checked(ctx):
             return 1
         print("replay: case no longer fails on the current tree")
         return 0
+    lru_cov, ls, lg = lru_phase(ctx, wdir, verdict)
     rc = verdict.finish(wdir)
     so = json.loads(lines[0])
-    cov = {"states": states + s2, "transitions": gen + g2, "traces_validated_against_impl": len(lines), "evaluations": calls,
+    cov = {"states": states + s2 + ls, "transitions": gen + g2 + lg, "traces_validated_against_impl": len(lines), "evaluations": calls,
            "distinct_nontrivial": nontrivial,
            "rule": "TLC enumerates all plans up to the bound of SessionMC_*.cfg; sampled plans x seeded universes (npm, Maven, PyPI) on one shared client; "
                    "insertion-order experiments (4 shuffles); %d batches of 16 concurrent calls under -race (%d race reports); evaluations = Resolve calls; "
                    "non-trivial = session whose roots resolve to different graphs" % (len(race_cases), race_reports),
            "samples": [{"system": so["sys"], "plan": owners[0].get("steps"), "events": so["events"][:4]}],
            "known_findings_hit": {k: v[0] for k, v in verdict.hits.items()}, "exhaustive": False}
+    cov.update(lru_cov)
+    cov["rule"] += "; resolver LRU caches: every Add/Get history up to the bound of LruMC_*.cfg plus seeded long histories on the real cache, reply and full state compared with Lru.tla after every step"
     vlib.write_evidence(pid, ctx.tier, ctx.seed, "model_checking", cov, time.time() - t0, violations=len(verdict.violations),
                         assumptions=["TLC 1.8.0", "digest = SHA-1 of the canonicalised graph text (order-independent content digest when Canon fails)",
                                      "interleavings below whole-call granularity are covered only by the Go race detector's happens-before analysis"])
